@@ -456,7 +456,7 @@ func check(id, tier string) int {
 	defer os.RemoveAll(dir)
 
 	fmt.Printf("verif: property %s tier %s VERIF_SEED=%d\n", id, tier, seed)
-	bin, err := buildWorker(dir, p.Instrumented, false)
+	bin, err := buildFor(p, dir)
 	if err != nil {
 		os.RemoveAll(dir)
 		fatal2("build failed (no verdict):\n%v", err)
@@ -750,7 +750,7 @@ func replay(path string) int {
 			return code
 		}
 	}
-	bin, err := buildWorker(dir, p.Instrumented, false)
+	bin, err := buildFor(p, dir)
 	if err != nil {
 		fatal2("build failed:\n%v", err)
 	}
@@ -859,7 +859,7 @@ func dettest(ids []string) int {
 			continue
 		}
 		dir := scratch()
-		bin, err := buildWorker(dir, p.Instrumented, false)
+		bin, err := buildFor(p, dir)
 		if err != nil {
 			os.RemoveAll(dir)
 			fatal2("build failed:\n%v", err)
@@ -908,4 +908,17 @@ func dettest(ids []string) int {
 		return 2
 	}
 	return 0
+}
+
+// buildFor builds the worker for a property: against the instrumented copy,
+// or - when that fails and the property allows it - against /repo directly.
+func buildFor(p *propInfo, dir string) (string, error) {
+	bin, err := buildWorker(dir, p.Instrumented, false)
+	if err != nil && p.Instrumented && p.Fallback {
+		fmt.Fprintf(os.Stderr, "verif: instrumented build failed, falling back to the plain build (map iteration order not owned in this run):\n%v\n", err)
+		p.Instrumented, p.fellBack = false, true
+		os.RemoveAll(filepath.Join(dir, "repo"))
+		bin, err = buildWorker(dir, false, false)
+	}
+	return bin, err
 }
